@@ -208,6 +208,52 @@ def replay_chunks(kind, N, chunks, sigma=1.0, boundary=None):
             same = False
             out["enlarged"] = {"image": list(big), "chunks": [list(c) for c in bch], "raised": repr(e)[:200]}
         bad = bad or not same
+        # (c) the chunk wrapper alone, with an exact user-defined picker (public base class): a particle = two adjacent voxels along an axis,
+        # reported at their midpoint (a half-integer coordinate); midpoints exactly on chunk borders, odd and even chunk sizes
+        from acryo.pick._base import BasePickerModel
+
+        class PairPicker(BasePickerModel):
+            def __init__(self, axis):
+                self.axis = axis
+
+            def get_params_and_depth(self, scale):
+                return {}, 2
+
+            def pick_in_chunk(self, image):
+                idx = np.argwhere(np.asarray(image) > 0.5)
+                pts = []
+                for p in idx:
+                    q = p.copy()
+                    q[self.axis] += 1
+                    if q[self.axis] < image.shape[self.axis] and image[tuple(q)] > 0.5:
+                        pts.append((p + q) / 2.0)
+                pos = np.array(pts, dtype=np.float32).reshape(-1, 3)
+                quat = np.zeros((len(pos), 4), dtype=np.float32)
+                quat[:, 3] = 1
+                return pos, quat, {"score": np.ones(len(pos), dtype=np.float32)}
+
+        pair = {}
+        for axis in range(3):
+            for csize in (5, 6, 7):
+                shp = [12, 12, 12]
+                shp[axis] = 3 * csize
+                for border in (csize, 2 * csize):
+                    img = np.zeros(shp, dtype=np.float32)
+                    a, b2 = [5, 5, 5], [5, 5, 5]
+                    a[axis], b2[axis] = border - 1, border
+                    img[tuple(a)] = img[tuple(b2)] = 1.0
+                    ch = [12, 12, 12]
+                    ch[axis] = csize
+                    try:
+                        r0 = key(PairPicker(axis).pick_molecules(img, scale=scale, **bkw))
+                        r1 = key(PairPicker(axis).pick_molecules(da.from_array(img, chunks=tuple(ch)), scale=scale, **bkw))
+                        if r0.shape != (1, 3) or r1.shape != r0.shape or np.abs(r0 - r1).max() > 1e-6 * max(scale, 1):
+                            pair[f"axis{axis},chunk={csize},midpoint={border - 0.5}"] = {"numpy": r0.round(3).tolist(), "dask": r1.round(3).tolist()}
+                    except Exception as e:
+                        pair[f"axis{axis},chunk={csize},midpoint={border - 0.5}"] = {"raised": repr(e)[:160]}
+        if pair:
+            out["pick_exactly_on_a_chunk_border"] = dict(list(pair.items())[:4])
+            bad = True
         return bad, {"picker": kind, "scale": scale, **out}
 
     return run
@@ -341,19 +387,42 @@ def replay_template(cex):
     bad = []
     for s in ((6, 6, 6), (7, 7, 7), (6, 4, 8)):
         t = rng.normal(size=s).astype(np.float32)
-        for start in range(14, 19):
+        for start in range(10, 19):
             big = rng.normal(size=(40, 20, 24)).astype(np.float32) * 0.02
             big[start:start + s[0], 7:7 + s[1], 8:8 + s[2]] += t
             tm = ZNCCTemplateMatcher(t)
             want = [[start + (s[0] - 1) / 2, 7 + (s[1] - 1) / 2, 8 + (s[2] - 1) / 2]]
             try:
                 a = tm.pick_molecules(big, 1.0, min_score=0.5).pos.tolist()
-                b = tm.pick_molecules(da.from_array(big, chunks=(20, 20, 12)), 1.0, min_score=0.5).pos.tolist()
             except Exception as e:
                 bad.append({"template": list(s), "raised": repr(e)[:150]})
                 continue
-            if not (np.shape(a) == (1, 3) and np.allclose(a, want) and np.shape(b) == (1, 3) and np.allclose(b, want)):
-                bad.append({"template": list(s), "centre": want[0], "numpy": a, "dask_chunks_(20,20,12)": b})
+            if not (np.shape(a) == (1, 3) and np.allclose(a, want)):
+                bad.append({"template": list(s), "centre": want[0], "numpy": a})
+            # even and odd chunk sizes: a half-integer centre (even template) can lie exactly on a chunk border
+            for cz in (20, 15, 13) if 14 <= start else (15, 13):
+                try:
+                    b = tm.pick_molecules(da.from_array(big, chunks=(cz, 20, 12)), 1.0, min_score=0.5).pos.tolist()
+                except Exception as e:
+                    bad.append({"template": list(s), "chunks": [cz, 20, 12], "raised": repr(e)[:150]})
+                    continue
+                if not (np.shape(b) == (1, 3) and np.allclose(b, want)):
+                    bad.append({"template": list(s), "centre": want[0], "numpy": a, f"dask_chunks_({cz},20,12)": b})
+    # a template whose FIRST axis is the shortest, particle moved across chunk borders of the longest axis
+    t = rng.normal(size=(4, 8, 6)).astype(np.float32)
+    tm = ZNCCTemplateMatcher(t)
+    for start in range(5, 15):
+        big = rng.normal(size=(24, 40, 24)).astype(np.float32) * 0.02
+        big[9:13, start:start + 8, 8:14] += t
+        want = [[9 + 1.5, start + 3.5, 8 + 2.5]]
+        for cy in (10, 13):
+            try:
+                b = tm.pick_molecules(da.from_array(big, chunks=(24, cy, 24)), 1.0, min_score=0.5).pos.tolist()
+            except Exception as e:
+                bad.append({"template": [4, 8, 6], "chunks": [24, cy, 24], "raised": repr(e)[:150]})
+                continue
+            if not (np.shape(b) == (1, 3) and np.allclose(b, want)):
+                bad.append({"template": [4, 8, 6], "centre": want[0], f"dask_chunks_(24,{cy},24)": b})
     # one matcher with an ImageProvider template used at two scales
     from acryo import pipe
 
@@ -450,8 +519,9 @@ def sec_template(rec, shape=(4, 2, 6), K=3, patches=None):
         rec.fact(f"{tag}/bank/one-rotated-template-per-searched-rotation,in-order", bool(okn), key="C20/tm/bank", detail={"templates": len(tmpls), "calls": len(cl)}, reproduced=True if okn else replay_template({})[0])
         # depth: every particle centre inside a chunk must be reachable by the landscape of the extended chunk:
         # landscape entry x <-> centre x + (s+1)/2, x in [0, n-s-2]; owned centres lie in [d - 1/2, d + n_c - 1/2), n = n_c + 2d
+        depth3 = tuple(depth) if hasattr(depth, "__len__") else (depth,) * 3  # pick_molecules accepts one depth for all axes
         for a in range(3):
-            d, s_ = zr(depth[a]), shape[a]
+            d, s_ = zr(depth3[a]), shape[a]
             lowest_owned = d - Fraction(1, 2) if s_ % 2 == 0 else d  # centres are (half-)integers: x + (s+1)/2
             rec.query(f"{tag}/depth/axis{a}/lowest-owned-centre-is-on-the-landscape", [], z3.RealVal(Fraction(s_ + 1, 2)) <= lowest_owned, key="C20/tm/depth-covers-template", replay=lambda cex: replay_template(cex))
             nc = z3.Real("n_c")
